@@ -241,7 +241,10 @@ func (t *Total) Clone() *Total {
 		nt.Categories[i].Retained = ct.Retained
 		nt.Categories[i].Amount = ct.Amount
 		nt.Categories[i].amount = ct.amount
-		nt.Categories[i].Surcharge = ct.Surcharge
+		if ct.Surcharge != nil {
+			s := *ct.Surcharge
+			nt.Categories[i].Surcharge = &s
+		}
 		nt.Categories[i].Rates = make([]*RateTotal, len(ct.Rates))
 		for j, rt := range ct.Rates {
 			nt.Categories[i].Rates[j] = new(RateTotal)
@@ -270,6 +273,9 @@ func (t *Total) Clone() *Total {
 func (t *Total) Merge(t2 *Total) *Total {
 	// Create a new total with the same categories
 	nt := t.Clone()
+	// work on a copy of the second total so that the result never shares
+	// rates or surcharges with it
+	t2 = t2.Clone()
 
 	// Now merge the second total
 	for _, ct := range t2.Categories {
